@@ -3,7 +3,7 @@
   charge gain agree; rates are 0 at vacant stations; peak = max aggregate current; total energy
   = integral of aggregate power.
 
-  Property theorems only (helpers: `Lemmas/LedgerBattery`, `LedgerSim`, `LedgerInv`, `LedgerStep`, `LedgerTotal`).
+  Property theorems only (helpers: `Lemmas/LedgerBattery`, `LedgerSim`, `LedgerInv`, `LedgerStep`, `LedgerTotal`, `LedgerInterval`).
   Carrier: any linear ordered field `K`; `HasExp K` is an ARBITRARY function — the ledger of the
   two-stage battery is pure algebra on the dsoc value the code returns.
   Simulator-level theorems are about the full model `Acn.Sim` (the one the driver executes
@@ -12,7 +12,9 @@
   every fuel `n` (so also for every loop head in the middle of a run).  Their only hypothesis on
   the scenario is that station ids are pairwise distinct (a dict in the code).
 -/
-import AcnProofs.Lemmas.LedgerTotal
+import AcnProofs.Lemmas.LedgerInterval
+import AcnProofs.Lemmas.LedgerExecEq
+import AcnProofs.Lemmas.LedgerBoundsRun
 
 set_option linter.unusedSectionVars false
 set_option linter.unusedVariables false
@@ -109,6 +111,75 @@ theorem session_energy_eq_sum (cfg : Cfg K) (hn : StationsNodup cfg)
   unfold sessionEnergy
   exact Finset.sum_congr rfl (fun τ _ => sum_term_single hn hL h0 τ)
 
+/-- THE STATEMENT AS THE PROPERTY WORDS IT.  Under C01's hypothesis `Valid` on the scenario, at every loop
+    head of a run that has not raised: delivered_x = Σ over the periods `τ` so far with
+    `arrival_x ≤ τ < departure_x` of `rates[station_x][τ] · V / 1000 · (period / 60)` -/
+theorem session_energy_interval (cfg : Cfg K) (hn : StationsNodup cfg) (hv : EventCore.Valid cfg.core)
+    (sched : View K → Except EventCore.Err (Schedule K)) (n : Nat) (s : State K)
+    (h : Sim.run cfg sched n (Sim.init cfg) = (s, none)) (id : String) (e0 e : Ev K)
+    (h0 : evIn cfg.evs id = some e0) (he : evIn s.evs id = some e) :
+    e.delivered - e0.delivered =
+      ∑ τ ∈ range s.core.iter,
+        if e0.arrival ≤ (τ : Int) ∧ (τ : Int) < e0.departure
+        then s.rates.get (stationIndex cfg e0.station) τ * volt cfg (stationIndex cfg e0.station) / 1000
+              * (cfg.period / 60)
+        else 0 := by
+  have hI := run_iinv hn hv sched n _ s (init_iinv cfg hv) h
+  rw [session_energy_eq_sum cfg hn sched n s h id e0 e h0 he]
+  apply Finset.sum_congr rfl
+  intro τ hτ
+  have := occAt_iff_interval hn hv hI h0 τ
+  simp only [Finset.mem_range.1 hτ, true_and] at this
+  exact if_congr this rfl rfl
+
+/-- ... and for a complete run (`n` at least the horizon, e.g. the driver's fuel): the sum is over
+    exactly the interval `[arrival_x, departure_x)` -/
+theorem session_energy_interval_complete (cfg : Cfg K) (hn : StationsNodup cfg) (hv : EventCore.Valid cfg.core)
+    (sched : View K → Except EventCore.Err (Schedule K)) (n : Nat) (hN : EventCore.horizon cfg.core ≤ n)
+    (s : State K) (h : Sim.run cfg sched n (Sim.init cfg) = (s, none)) (id : String) (e0 e : Ev K)
+    (h0 : evIn cfg.evs id = some e0) (he : evIn s.evs id = some e) :
+    e.delivered - e0.delivered =
+      ∑ τ ∈ Finset.Ico e0.arrival.toNat e0.departure.toNat,
+        s.rates.get (stationIndex cfg e0.station) τ * volt cfg (stationIndex cfg e0.station) / 1000
+          * (cfg.period / 60) := by
+  rw [session_energy_interval cfg hn hv sched n s h id e0 e h0 he, ← Finset.sum_filter]
+  -- the run is over: iteration = horizon ≥ every departure
+  have hproj := Sim.run_core cfg sched n (Sim.init cfg) (by rw [h])
+  rw [h] at hproj
+  obtain ⟨c', hr, hI'⟩ := EventCore.run_spec hv (sched := EventCore.noFail) (apply := EventCore.noFail)
+    (fun _ => rfl) (fun _ => rfl) n 0 (EventCore.init cfg.core) (EventCore.init_inv hv) (Nat.zero_le _)
+  rw [Sim.init_core, hr] at hproj
+  obtain rfl : c' = s.core := by simpa using hproj
+  have hiter : s.core.iter = EventCore.horizon cfg.core := by
+    rw [hI'.iter]; omega
+  have hmem : e0 ∈ cfg.evs := List.mem_of_find?_eq_some h0
+  have hx0 : sessionOf e0 ∈ cfg.core.sessions := List.mem_map.2 ⟨e0, hmem, rfl⟩
+  have hdep : e0.departure ≤ EventCore.maxTs cfg.core := EventCore.dep_le_maxTs hx0
+  have harr : 0 ≤ e0.arrival := hv.arr_nonneg _ hx0
+  apply Finset.sum_congr _ (fun _ _ => rfl)
+  ext τ
+  simp only [Finset.mem_filter, Finset.mem_range, Finset.mem_Ico, hiter, EventCore.horizon]
+  omega
+
+/-- a station's recorded rate is 0 in every period that lies in no session's connection interval -/
+theorem rates_zero_outside_interval (cfg : Cfg K) (hn : StationsNodup cfg) (hv : EventCore.Valid cfg.core)
+    (sched : View K → Except EventCore.Err (Schedule K)) (n : Nat) (s : State K)
+    (h : Sim.run cfg sched n (Sim.init cfg) = (s, none)) (i τ : Nat) (st : Station K)
+    (hst : cfg.stations[i]? = some st)
+    (hout : ¬ ∃ x ∈ cfg.core.sessions, x.station = st.id ∧ x.arrival ≤ (τ : Int) ∧ (τ : Int) < x.departure) :
+    s.rates.get i τ = 0 := by
+  have hI := run_iinv hn hv sched n _ s (init_iinv cfg hv) h
+  by_cases hτ : τ < s.core.iter
+  · apply hI.led.vacant τ i hτ (List.getElem?_eq_some_iff.1 hst).1
+    cases ho : occAt s.occLog τ i with
+    | none => rfl
+    | some id =>
+      obtain ⟨_, st', x, hst', m1, _, m3, m4, m5⟩ := (hI.log τ i id).1 ho
+      rw [hst] at hst'
+      obtain rfl : st = st' := by simpa using hst'
+      exact absurd ⟨x, m1, m3, m4, m5⟩ hout
+  · exact hI.led.future τ i (by omega)
+
 /-- total energy delivered (Σ over all EVs of the session counters, `analysis.total_energy_delivered`)
     = Σ_τ aggregate_power(τ) · period/60, with aggregate_power(τ) = Σ_st V_st · rates[st][τ] / 1000
     (`analysis.aggregate_power`); session ids pairwise distinct -/
@@ -160,6 +231,45 @@ theorem peak_eq_max (cfg : Cfg K) (hn : StationsNodup cfg)
     (s.peak = 0 ∨ ∃ τ < s.core.iter, s.peak = ∑ i ∈ range cfg.stations.length, s.rates.get i τ) := by
   rw [(ledger_invariant cfg hn sched n s h).peak_eq]
   exact peakUpTo_spec s.rates cfg.stations.length s.core.iter
+
+/-! ### C03's clause at simulator level (carrier ℝ, `exp = Real.exp`) -/
+
+/-- For every scenario with distinct station ids whose batteries start in a state satisfying C03's
+    `BattAlg.Inv` (capacity > 0, charge ≤ capacity, max power ≥ 0, 0 ≤ transition SoC < 1), every
+    scheduler that only submits non-negative pilots, every noise stream and every loop head of a run
+    that has not raised: for EVERY station and period, 0 ≤ charging_rates[st][t] ≤ pilot_signals[st][t]
+    (vacant station ⇒ rate 0; by `C03.ev_rate_le_pilot` through the station loop, and because
+    `_update_schedules` never rewrites a past column) -/
+theorem sim_rate_le_pilot (cfg : Cfg ℝ) (hn : StationsNodup cfg)
+    (hb : ∀ e ∈ cfg.evs, BattAlg.Inv e.batt)
+    (sched : View ℝ → Except EventCore.Err (Schedule ℝ)) (hs : SchedNonneg sched) (n : Nat) (s : State ℝ)
+    (h : Sim.run cfg sched n (Sim.init cfg) = (s, none)) (i τ : Nat) :
+    0 ≤ s.rates.get i τ ∧ s.rates.get i τ ≤ s.pilots.get i τ := by
+  have hI := run_binv hn sched hs n _ s (init_binv cfg hb) h
+  by_cases hτ : τ < s.core.iter
+  · exact hI.bound i τ hτ
+  · rw [hI.led.future τ i (by omega)]
+    exact ⟨le_refl _, hI.pil i τ⟩
+
+/-! ### the sums `drv_C02` executes are the sums of the theorems -/
+
+/-- the Mathlib-free, executable specification functions of `LedgerExec.lean` (evaluated at `Float` by
+    the driver on the model's final state of every correspondence scenario) equal, over every linear
+    ordered field, the right-hand sides of `session_energy_all`, `session_energy_interval`,
+    `peak_eq_max` (`peakUpTo`) and `total_energy_eq_integral` -/
+theorem exec_sums_eq_spec (cfg : Cfg K) (rates : Pilots.Mat K) (log : List (List (Option String)))
+    (id : String) (k : Nat) (a d : Int) (t : Nat) :
+    LedgerX.sessionEnergyX cfg rates log id t =
+      (∑ τ ∈ range t, ∑ i ∈ range cfg.stations.length,
+        if occAt log τ i = some id then rates.get i τ * volt cfg i / 1000 * (cfg.period / 60) else 0) ∧
+    LedgerX.intervalEnergyX cfg rates k a d t =
+      (∑ τ ∈ range t, if a ≤ (τ : Int) ∧ (τ : Int) < d
+        then rates.get k τ * volt cfg k / 1000 * (cfg.period / 60) else 0) ∧
+    LedgerX.peakX rates cfg.stations.length t = peakUpTo rates cfg.stations.length t ∧
+    LedgerX.integralX cfg rates t =
+      ∑ τ ∈ range t, (∑ i ∈ range cfg.stations.length, volt cfg i * rates.get i τ / 1000) * (cfg.period / 60) :=
+  ⟨LedgerX.sessionEnergyX_eq cfg rates log id t, LedgerX.intervalEnergyX_eq cfg rates k a d t,
+   LedgerX.peakX_eq rates _ t, LedgerX.integralX_eq cfg rates t⟩
 
 /-! ### non-vacuity (full model over ℚ; `exp` is never called by the ideal / stepwise laws) -/
 
